@@ -42,13 +42,18 @@ structure Obs where
   scopes : List ScopeObs
   grants : List Grant
   markers : List Marker
+  /-- the exchange's ask orders (id, seller, asset, price) -/
+  orders : List Order := []
+  /-- units on hold per (account, scope denom), as the hold module reports them -/
+  holds : List (Addr × Denom) := []
   deriving DecidableEq, Repr
 
 inductive StepKind where
   | msg (mt : MsgType)   -- one of the four metadata messages
   | send                 -- bank MsgSend; its signer is the sender
   | mwithdraw            -- marker MsgWithdraw; its signer is the administrator
-  | env                  -- grant / revoke / marker access change
+  | env                  -- grant / revoke / marker access change / creating or cancelling an order
+  | fill (oid : Nat)     -- exchange MsgFillAsks of ask order `oid`; its signer is the buyer
   deriving DecidableEq, Repr
 
 structure StepInfo where
@@ -106,6 +111,7 @@ def authorises (pre : Obs) (st : StepInfo) (h : Addr) : Bool :=
      | some m => st.signers.any (m.has · .withdraw)
      | none => false)
   | .env => false
+  | .fill oid => pre.orders.any fun o => o.id = oid && o.seller = h   -- h made the ask order that is being filled
 
 /-- when `h'` is a restricted marker a signer has deposit on it -/
 def depositAuthorised (pre : Obs) (st : StepInfo) (h' : Addr) : Bool :=
@@ -220,8 +226,16 @@ def observeScope (s : State) (id : ScopeId) : ScopeObs :=
     listed := listedBy s id
     rollup := match findScope s id with | some e => e.rollup | none => false }
 
+/-- holds in a canonical order (the dump lists them sorted) -/
+def holdLe (x y : Addr × Denom) : Bool := x.1 < y.1 || (x.1 = y.1 && x.2 ≤ y.2)
+def insertHold (x : Addr × Denom) : List (Addr × Denom) → List (Addr × Denom)
+  | [] => [x]
+  | y :: ys => if holdLe x y then x :: y :: ys else y :: insertHold x ys
+def insertionSortHolds (hs : List (Addr × Denom)) : List (Addr × Denom) := hs.foldr insertHold []
+
 def observe (s : State) (ids : List ScopeId) : Obs :=
-  { scopes := ids.map (observeScope s), grants := s.grants, markers := s.markers }
+  { scopes := ids.map (observeScope s), grants := s.grants, markers := s.markers, orders := s.orders,
+    holds := insertionSortHolds s.holds }
 
 def stepInfo (op : Op) (accepted : Bool) : StepInfo :=
   match op with
@@ -238,5 +252,8 @@ def stepInfo (op : Op) (accepted : Bool) : StepInfo :=
   | .revoke .. => { kind := .env, signers := [], accepted }
   | .access .. => { kind := .env, signers := [], accepted }
   | .mstatus .. => { kind := .env, signers := [], accepted }
+  | .ask .. => { kind := .env, signers := [], accepted }                       -- moves nothing
+  | .fill buyer oid _ => { kind := .fill oid, signers := [buyer], accepted }
+  | .cancel .. => { kind := .env, signers := [], accepted }                    -- moves nothing
 
 end PvModel.Vowner
